@@ -701,14 +701,14 @@ fn inv_alloc_bytes_sync_pess_n2() {
   step_alloc::<sync::Arena, u8, 2, 3, 128>(cfg!(Pessimistic, 1), Kind::Bytes);
 }
 
-// @h props=C01,C03,C08,C10,C16,C20 quick=C16 timeout=900 bounds=CAP=128,list=None,n<=256
+// @h props=C01,C03,C08,C10,C16,C20 quick=C16 timeout=900 bounds=CAP=128,list=None,n<=256 optcover=slow_path_with_split|slow_path_without_split
 #[kani::proof]
 #[kani::unwind(4)]
 fn inv_alloc_bytes_unsync_none() {
   step_alloc::<unsync::Arena, u8, 1, 2, 128>(cfg!(None, 1), Kind::Bytes);
 }
 
-// @h props=C01,C03,C08,C10,C16,C20 quick=C16 timeout=900 bounds=CAP=128,list=None,n<=256
+// @h props=C01,C03,C08,C10,C16,C20 quick=C16 timeout=900 bounds=CAP=128,list=None,n<=256 optcover=slow_path_with_split|slow_path_without_split
 #[kani::proof]
 #[kani::unwind(4)]
 fn inv_alloc_bytes_sync_none() {
@@ -744,14 +744,14 @@ fn inv_dealloc_sync_pess_n2() {
   step_dealloc::<sync::Arena, 2, 3, 128>(cfg!(Pessimistic, 1));
 }
 
-// @h props=C01,C10,C16,C20 quick=C20 timeout=900 bounds=CAP=128,list=None
+// @h props=C01,C10,C16,C20 quick=C20 timeout=900 bounds=CAP=128,list=None optcover=insert_into_a_full-length_list|too_small
 #[kani::proof]
 #[kani::unwind(4)]
 fn inv_dealloc_unsync_none() {
   step_dealloc::<unsync::Arena, 1, 2, 128>(cfg!(None, 1));
 }
 
-// @h props=C01,C10,C16,C20 tier=thorough timeout=900 bounds=CAP=128,list=None
+// @h props=C01,C10,C16,C20 tier=thorough timeout=900 bounds=CAP=128,list=None optcover=insert_into_a_full-length_list|too_small
 #[kani::proof]
 #[kani::unwind(4)]
 fn inv_dealloc_sync_none() {
@@ -771,7 +771,7 @@ fn rewind_ref(pos: ArenaPosition, allocated: u32, dofs: u32, cap: u32) -> u32 {
   (if t < lo { lo } else if t > hi { hi } else { t }) as u32
 }
 
-fn any_pos() -> ArenaPosition {
+pub(crate) fn any_pos() -> ArenaPosition {
   let which: u8 = kani::any();
   match which % 3 {
     0 => ArenaPosition::Start(kani::any()),
@@ -1115,13 +1115,13 @@ fn c04_alloc_aligned_anysize_unsync_pess() {
 fn c04_alloc_aligned_anysize_sync_opt() {
   step_alloc::<sync::Arena, u32, 1, 2, 128>(cfg!(Optimistic, 1, any), Kind::Aligned);
 }
-// @h props=C04 tier=thorough timeout=1800 role=anysize_bytes bounds=CAP=128,list=None,n:any-u32
+// @h props=C04 tier=thorough timeout=1800 role=anysize_bytes bounds=CAP=128,list=None,n:any-u32 optcover=slow_path_with_split|slow_path_without_split
 #[kani::proof]
 #[kani::unwind(4)]
 fn c04_alloc_bytes_anysize_sync_none() {
   step_alloc::<sync::Arena, u8, 1, 2, 128>(cfg!(None, 1, any), Kind::Bytes);
 }
-// @h props=C04 tier=thorough timeout=1800 role=anysize_bytes bounds=CAP=128,list=None,n:any-u32
+// @h props=C04 tier=thorough timeout=1800 role=anysize_bytes bounds=CAP=128,list=None,n:any-u32 optcover=slow_path_with_split|slow_path_without_split
 #[kani::proof]
 #[kani::unwind(4)]
 fn c04_alloc_bytes_anysize_unsync_none() {
@@ -1206,7 +1206,7 @@ c03_step!(inv_alloc_typed_a16_unsync_pess, unsync::Arena, A16, Pessimistic, Type
 c03_step!(inv_alloc_aligned_u64_unsync_opt, unsync::Arena, u64, Optimistic, Aligned, 2, 3, 5);
 // @h props=C03 quick=C03 role=zst_aligned timeout=1800 bounds=CAP=128,MAXN=1,T=[u64;0],n<=256
 c03_step!(inv_alloc_aligned_zst8_unsync_opt, unsync::Arena, [u64; 0], Optimistic, Aligned, 1, 2, 4);
-// @h props=C03,C01 quick=C03 timeout=900 bounds=CAP=128,MAXN=1,T=()
+// @h props=C03,C01 quick=C03 timeout=900 bounds=CAP=128,MAXN=1,T=() optcover=fast_path_with_a_non-empty_list|slow_path_with_split|slow_path_without_split|error_with_a_non-empty_list
 c03_step!(inv_alloc_typed_unit_sync_opt, sync::Arena, (), Optimistic, Typed, 1, 2, 4);
 // thorough: rest of the layout list
 // @h props=C03,C01,C10 tier=thorough timeout=1800 bounds=CAP=128,MAXN=2,T=u8
@@ -1227,9 +1227,9 @@ c03_step!(inv_alloc_aligned_u32_sync_pess, sync::Arena, u32, Pessimistic, Aligne
 c03_step!(inv_alloc_aligned_a16_unsync_opt, unsync::Arena, A16, Optimistic, Aligned, 2, 3, 5);
 // @h props=C03,C01,C10 tier=thorough timeout=1800 bounds=CAP=128,MAXN=2,T=u16,n<=256
 c03_step!(inv_alloc_aligned_u16_sync_opt, sync::Arena, u16, Optimistic, Aligned, 2, 3, 5);
-// @h props=C03,C01,C10 tier=thorough timeout=1800 bounds=CAP=128,list=None,T=u64
+// @h props=C03,C01,C10 tier=thorough timeout=1800 bounds=CAP=128,list=None,T=u64 optcover=slow_path_with_split|slow_path_without_split
 c03_step!(inv_alloc_typed_u64_unsync_none, unsync::Arena, u64, None, Typed, 1, 2, 4);
-// @h props=C03,C01,C10 tier=thorough timeout=1800 bounds=CAP=128,list=None,T=u32,n<=256
+// @h props=C03,C01,C10 tier=thorough timeout=1800 bounds=CAP=128,list=None,T=u32,n<=256 optcover=slow_path_with_split|slow_path_without_split
 c03_step!(inv_alloc_aligned_u32_sync_none, sync::Arena, u32, None, Aligned, 1, 2, 4);
 
 // ============================ C10/C20: list maintenance ops ==================================
